@@ -1,6 +1,7 @@
 (* C02 — Tag streams are self-delimiting: framing is total, canonical and balanced.
    Property theorems only; proofs live in Bac.TagFacts / Bac.TagHdr. *)
-From Bac Require Import Base Tag TagHdr TagFacts.
+From Bac Require Import Base Tag TagHdr TagFacts PyLoops TagGenFacts.
+From BacGen Require Import TagFns.
 Open Scope N_scope.
 
 (* one tag followed by anything decodes to exactly that tag, rest untouched *)
@@ -62,6 +63,66 @@ Theorem C02_any_unbalanced : forall o body,
 Proof. exact any_decode_unbalanced. Qed.
 Print Assumptions C02_any_unbalanced.
 
+(* ---- tie by translation: BacGen.TagFns is regenerated from primitivedata.py on every run
+   (translator/gen_tagfns.py, statement by statement); the translated Tag.encode / Tag.decode /
+   TagList.encode / TagList.decode ARE the model, for every input *)
+Theorem C02_translated_encode_is_model : forall t pdu,
+  gen_Tag_encode t pdu = do bs <- enc_tag t; Ok (pdu ++ bs).
+Proof. exact gen_Tag_encode_eq. Qed.
+Print Assumptions C02_translated_encode_is_model.
+
+Theorem C02_translated_decode_is_model : forall bs, gen_Tag_decode bs = dec_tag bs.
+Proof. exact gen_Tag_decode_eq. Qed.
+Print Assumptions C02_translated_decode_is_model.
+
+Theorem C02_translated_list_encode_is_model : forall ts pdu,
+  gen_TagList_encode ts pdu = do bs <- enc_tags ts; Ok (pdu ++ bs).
+Proof. exact gen_TagList_encode_eq. Qed.
+Print Assumptions C02_translated_list_encode_is_model.
+
+(* self.tagList = acc on entry: the decoded tags are appended, the buffer is left empty *)
+Theorem C02_translated_list_decode_is_model : forall acc bs,
+  gen_TagList_decode acc bs = do ts <- dec_tags bs; Ok (acc ++ ts, []).
+Proof. exact gen_TagList_decode_eq. Qed.
+Print Assumptions C02_translated_list_decode_is_model.
+
+(* the main theorems stated directly on the translated source text *)
+Theorem C02_gen_tag_roundtrip : forall t, wf_tag t = true ->
+  exists bs, gen_Tag_encode t [] = Ok bs /\ forall rest, gen_Tag_decode (bs ++ rest) = Ok (t, rest).
+Proof. exact gen_tag_roundtrip. Qed.
+Print Assumptions C02_gen_tag_roundtrip.
+
+Theorem C02_gen_list_roundtrip : forall ts, forallb wf_tag ts = true ->
+  exists bs, gen_TagList_encode ts [] = Ok bs /\ gen_TagList_decode [] bs = Ok (ts, []).
+Proof. exact gen_list_roundtrip. Qed.
+Print Assumptions C02_gen_list_roundtrip.
+
+Theorem C02_gen_canonical_header : forall t, wf_tag t = true ->
+  gen_Tag_encode t [] = Ok (spec_header t ++ data t).
+Proof. exact gen_canonical_header. Qed.
+Print Assumptions C02_gen_canonical_header.
+
+Theorem C02_gen_decode_total : forall bs,
+  (exists ts, gen_TagList_decode [] bs = Ok (ts, [])) \/ gen_TagList_decode [] bs = Err InvalidTag.
+Proof. exact gen_decode_total. Qed.
+Print Assumptions C02_gen_decode_total.
+
+Theorem C02_gen_no_overread : forall bs t r, gen_Tag_decode bs = Ok (t, r) ->
+  exists h, bs = h ++ data t ++ r /\ (1 <= length h <= 7)%nat.
+Proof. exact gen_no_overread. Qed.
+Print Assumptions C02_gen_no_overread.
+
+Theorem C02_gen_reencode_stable : forall bs ts, bytes_ok bs = true ->
+  gen_TagList_decode [] bs = Ok (ts, []) ->
+  exists bs', gen_TagList_encode ts [] = Ok bs' /\ gen_TagList_decode [] bs' = Ok (ts, []).
+Proof. exact gen_reencode_stable. Qed.
+Print Assumptions C02_gen_reencode_stable.
+
+(* refusal: a tag number beyond the extended-number octet is never put on the wire *)
+Theorem C02_gen_encode_refuses_number : forall t pdu, 256 <= num t -> gen_Tag_encode t pdu = Err ValueErr.
+Proof. exact gen_encode_refuses_number. Qed.
+Print Assumptions C02_gen_encode_refuses_number.
+
 (* non-vacuity: concrete tags meet the hypotheses, including every length escape *)
 Example C02_wf_examples :
   forallb wf_tag [mkTag 0 2 1 [5]; mkTag 1 254 0 []; mkTag 2 15 0 []; mkTag 3 0 0 [];
@@ -74,3 +135,12 @@ Proof.
     try reflexivity; try constructor; try (cbn; lia).
   apply (bal_group (mkTag 2 2 0 []) [] (mkTag 3 2 0 []) []); try reflexivity; constructor.
 Qed.
+
+(* the translated functions compute: every length escape through the generated encoder and back *)
+Example C02_gen_runs :
+  (do bs <- gen_TagList_encode [mkTag 1 200 300 (repeat 7 300%nat); mkTag 0 1 1 []; mkTag 2 15 0 []] [];
+   gen_TagList_decode [] bs)
+  = Ok ([mkTag 1 200 300 (repeat 7 300%nat); mkTag 0 1 1 []; mkTag 2 15 0 []], []).
+Proof. vm_compute. reflexivity. Qed.
+Example C02_gen_refusal_example : gen_Tag_encode (mkTag 0 256 0 []) [] = Err ValueErr.
+Proof. vm_compute. reflexivity. Qed.
